@@ -472,10 +472,37 @@ func stress(out string, runs, nprocs, ops int, seed int64) error {
 		select {
 		case <-done:
 		case <-time.After(60 * time.Second):
-			w.Emit(map[string]any{"ev": "hang", "p": "", "id": 0, "queue": []int64{}})
+			// Not finished: is it a genuine deadlock (every unfinished caller parked in cond.Wait,
+			// observed repeatedly), or just a slow machine? Only the former is an observation.
+			stuck := 0
+			for try := 0; try < 5; try++ {
+				st := sched.States()
+				regMu.RLock()
+				n, parked := 0, 0
+				for gid := range reg {
+					if s, ok := st[gid]; ok {
+						n++
+						if s == "sync.Cond.Wait" {
+							parked++
+						}
+					}
+				}
+				regMu.RUnlock()
+				if n > 0 && n == parked {
+					stuck++
+				}
+				time.Sleep(200 * time.Millisecond)
+			}
+			if stuck == 5 {
+				w.Emit(map[string]any{"ev": "stuck", "p": "", "id": 0, "queue": []int64{}})
+				return w.Close()
+			}
 			w.Close()
-			return fmt.Errorf("stress run %d did not finish (goroutines blocked)", r)
+			return fmt.Errorf("stress run %d did not finish within 60 s and is not provably deadlocked", r)
 		}
+		regMu.Lock()
+		reg = map[int64]string{}
+		regMu.Unlock()
 	}
 	return w.Close()
 }
